@@ -61,9 +61,9 @@ vlib.standard_check({
                     "a frequency multiplier != 1 or phaseSynchronousWithParent=false (the generator prints this class per clock as `gps` and the clocks it asked for at every "
                     "register/pin/marker/memory port as `req`; the driver compares getClockPinSource's partition and the nodes' clock slots against them in every design, "
                     "PROPFAIL kind=pin-partition / clock-binding, and judges crossings with the requested classes)",
-                    "NOT generated at random (candidate finding, see `c12 quirk`): a clock derived from a non-phase-synchronous clock with only a register attribute changed "
-                    "(also what scl::synchronize derives from its destination clock). hlim::DerivedClock copies the parent's m_phaseSynchronousWithParent "
-                    "(hlim/Clock.cpp:252), so the library makes the child a pin source of its own and rejects the unmarked parent->child path; by the property text they are one domain",
+                    "a clock derived from a non-phase-synchronous clock with only register attributes / reset name / trigger changed (also what scl::synchronize derives "
+                    "from its destination clock) shares its parent's source: generated at random again since finding F21 (DerivedClock copied the parent's phase flag) "
+                    "was fixed in /repo; the two designs of `c12 quirk` are replayed first on every run (corpus/C12/00-F21-…)",
                     "influence through memory *contents* (write port clock -> read data) is not a path: Node_MemPort::getOutputClockRelation ignores it by design",
                     "Node_External / vendor RAM primitives with their own checkValidInputClocks are not modelled (harness would report them as unsupported)",
                     "the check runs after optimisation: structural crossings that post-processing removes before the check (constant-select mux, AND/OR with a constant, "
